@@ -118,8 +118,20 @@ def d3(mod, run, w):
                     exp = H + mul(mul(row, Lin.atom(cs)) + col, ww)
                     d = ret - exp
                     if d.is_const() and d.c == 0: ok = True
+        # the row / column counts are read where the header writer (D2) put them, with the widths of the dimension byte
+        wc = ((r >> 1) & 0x07) + 1
+        for (cname, cargs) in p.calls:
+            if "External" not in cname: continue
+            ptrk = [a for a in cargs if isinstance(a, tuple) and a and a[0] == "ptr"]
+            wk = [a for a in cargs if not (isinstance(a, tuple) and a and a[0] == "ptr")]
+            if not ptrk or not wk: continue
+            at_rows = ptrk[0][2] == Lin().key() and wk[0] == q.key()
+            at_cols = ptrk[0][2] == q.key() and wk[0] == Lin.const(wc).key()
+            if not (at_rows or at_cols): ok = False; why = "reads a count from the header at the wrong offset or with the wrong width (%s)" % (cname,)
+        hdr = sorted({(p.offs[kk[1]] - q).c + j for kk in p.reads if (p.offs[kk[1]] - q).is_const() and 0 <= (p.offs[kk[1]] - q).c < 8 for j in range(kk[2])})
+        if hdr and hdr != list(range(wc)): ok = False; why = "reads header bytes rowsWidth+%s for the column count, expected rowsWidth+[0,%d)" % (hdr, wc)
         run.check(ok, "D3-cell-offset-polynomial", {"path": [c for c in p.cases if c[0] != "dim"][:3], "dim_low_nibble": r, "returns": repr(ret)},
-                  Finding("D3-cell-offset-wrong", "getEntryByteOffset", "offset", "polynomial", "on the path %s the cell offset is %r, not header + (row*cols+col)*width" % (p.cases, ret), quant=str(r)))
+                  Finding("D3-cell-offset-wrong", "getEntryByteOffset", "offset", "polynomial", "on the path %s: %s; the cell offset must be header + (row*cols+col)*width with the counts read from the header" % (p.cases, why), quant=str(r)))
     # (b) typed accessors touch the matrix only at that offset
     B = Bounds(w)
     for name, mode in CELL.items():
@@ -161,6 +173,19 @@ def d4(mod, run, w):
                 return d.is_const() and 0 <= d.c < 8
             keys = {kk for kk in (set(p.reads) | set(p.writes)) if not is_header(kk)}
             bad = None
+            # D6: when the column count is read from the header it is read at offset (rows width) with the columns width
+            resd = [c for c in p.cases if c[0] == "dim"]
+            rr = resd[0][2] % 16 if resd else None
+            if rr is not None and qrows is not None:
+                wc = ((rr >> 1) & 0x07) + 1
+                hdr = sorted({(p.offs[kk[1]] - qrows).c + j for kk in p.reads if is_header(kk) for j in range(kk[2])})
+                if hdr and hdr != list(range(wc)): bad = "reads header bytes at offsets rowsWidth+%s to obtain the column count; the column count occupies rowsWidth+[0,%d)" % (hdr, wc)
+                for (cname, cargs) in p.calls:
+                    if "External" not in cname: continue
+                    ptrk = [a for a in cargs if isinstance(a, tuple) and a and a[0] == "ptr"]
+                    wk = [a for a in cargs if not (isinstance(a, tuple) and a and a[0] == "ptr")]
+                    if ptrk and ptrk[0][2] != qrows.key(): bad = "reads the column count at a header offset other than the rows width"
+                    if wk and wk[0] != Lin.const(wc).key(): bad = "reads the column count with a width other than the columns width encoded in the dimension (%d)" % wc
             if len(keys) != 1 or any(kk[2] != 1 for kk in keys): bad = "accesses %d cell locations (%s), expected exactly one byte" % (len(keys), sorted((repr(p.offs[kk[1]]), kk[2]) for kk in keys))
             else:
                 key = next(iter(keys)); old = p.reads.get(key)
